@@ -39,7 +39,7 @@ Record row_ok (r : row) : Prop := {
   ro_k : forall kd k, r_kcanon r kd = Some k -> k <> [] /\ r_kcanon r k = Some k /\ (length k <= length kd)%nat;
   ro_vsize : forall k v c, r_vcanon r k v = POk c -> (length c <= length v)%nat;
   ro_proj : forall proj, r_disc r = DSorted proj -> forall a b, r_kcanon r a = Some a -> r_kcanon r b = Some b -> proj a = proj b -> a = b;
-  ro_whole : r_addr r = AProp \/ r_addr r = AUnk -> r_kind r = KMap /\ forall kd, r_kcanon r kd = Some kd }.
+  ro_whole : r_addr r = AProp \/ r_addr r = AUnk -> r_kind r = KMap /\ forall kd, kd <> [] -> r_kcanon r kd = Some kd }.
 (* the value canoniser is idempotent (false for TapTree: finding F9) *)
 Definition v_idem (r : row) : Prop := forall k v c, r_vcanon r k v = POk c -> r_vcanon r k c = POk c.
 Definition rows_ok : Prop := forall i r, nth_error T i = Some r -> row_ok r.
@@ -239,7 +239,7 @@ Proof. intros RO GI I [Fk Fv] H. cbn [fst snd] in Fk, Fv. unfold PsetMaps.insert
   - destruct kd as [|b kd]; [discriminate|]. destruct (r_kcanon r (b :: kd)) as [k|] eqn:KC; [|discriminate].
     destruct (ro_k _ O _ _ KC) as (Kn & Kc & Kl).
     assert (W : r_addr r = AProp \/ r_addr r = AUnk -> k = b :: kd).
-    { intros A. destruct (ro_whole _ O A) as [_ K']. rewrite K' in KC. now inversion KC. }
+    { intros A. destruct (ro_whole _ O A) as [_ K']. rewrite K' in KC by discriminate. now inversion KC. }
     assert (KV : kvalid r k) by (unfold kvalid; now rewrite KD).
     destruct (r_vfirst r).
     + destruct (r_vcanon r k v) as [c|] eqn:V; [|discriminate]. cbn [pbind] in H. destruct (has m i k) eqn:Hh; [discriminate|]. inversion H; subst m'.
